@@ -153,7 +153,8 @@ def relevant(pid, name, ref_result, cell_result, n_is_1):
             return acc_cell
         return acc_cell and acc_ref and not n_is_1
     if pid == "C07":
-        return name == "delivered" and acc_cell and acc_ref
+        # the buffer kept after an accepted line is what a later completion delivers
+        return name in ("delivered", "post_D") and acc_cell and acc_ref
     if pid == "C17":
         return (ref_result == ref.ERR_SEQ or n_is_1) and name in ("result", "post_sid", "post_s", "post_D")
     return True
